@@ -49,15 +49,15 @@ fn usage() -> ! {
 fn default_runs(prop: Prop, tier: Tier) -> u64 {
     // quick: ~10-40 s on 16 threads; thorough: as deep as is useful (minutes per property)
     let (q, t) = match prop {
-        Prop::C01 => (120_000, 4_000_000),
-        Prop::C02 => (1_000_000, 30_000_000),
-        Prop::C03 => (1_000_000, 30_000_000),
-        Prop::C06 => (1_500_000, 40_000_000),
-        Prop::C07 => (2_000_000, 50_000_000),
+        Prop::C01 => (100_000, 4_000_000),
+        Prop::C02 => (700_000, 30_000_000),
+        Prop::C03 => (700_000, 30_000_000),
+        Prop::C06 => (1_000_000, 40_000_000),
+        Prop::C07 => (1_500_000, 50_000_000),
         Prop::C08 => (3_000_000, 50_000_000),
         Prop::C09 => (3_000_000, 50_000_000),
-        Prop::C10 => (400_000, 12_000_000),
-        Prop::C16 => (300_000, 10_000_000),
+        Prop::C10 => (300_000, 12_000_000),
+        Prop::C16 => (250_000, 10_000_000),
     };
     match tier {
         Tier::Quick => q,
